@@ -15,6 +15,8 @@ import (
 	"encoding/hex"
 	"encoding/json"
 	"fmt"
+	"go/parser"
+	"go/token"
 	"io/ioutil"
 	"os"
 	"os/exec"
@@ -52,6 +54,7 @@ type impProj struct {
 
 type primaryProj struct {
 	Err     bool        `json:"err"`
+	Desc    string      `json:"desc"` // PkgInfo.Description
 	Imports []impProj   `json:"imports"`
 	Funcs   []string    `json:"funcs"`
 	Aliases [][3]string `json:"aliases"` // key, TargetName, Package (sorted by key)
@@ -126,6 +129,22 @@ func realGoList(dir string, paths []string) (map[string]goListEntry, error) {
 	return table, nil
 }
 
+// fileDocs: for each file the Text() of its package comment as go/parser + go/ast see it (nil: none),
+// independent of mage.
+func fileDocs(dir string, files []string) map[string]*string {
+	res := map[string]*string{}
+	for _, name := range files {
+		f, err := parser.ParseFile(token.NewFileSet(), filepath.Join(dir, name), nil, parser.ParseComments|parser.PackageClauseOnly)
+		if err != nil || f.Doc == nil {
+			res[name] = nil
+			continue
+		}
+		t := f.Doc.Text()
+		res[name] = &t
+	}
+	return res
+}
+
 func pkgFuncsOf(dir string, files []string) ([][2]string, error) {
 	info, err := parse.Package(dir, files)
 	if err != nil {
@@ -140,6 +159,7 @@ func pkgFuncsOf(dir string, files []string) ([][2]string, error) {
 
 func projectInfo(info *parse.PkgInfo) primaryProj {
 	var p primaryProj
+	p.Desc = info.Description
 	p.Imports = []impProj{}
 	p.Funcs = []string{}
 	p.Aliases = [][3]string{}
@@ -260,7 +280,7 @@ func init() {
 			}
 		}
 		return map[string]interface{}{
-			"table": table, "pkgs": pkgs, "locals": locals, "locals_err": localsErr,
+			"table": table, "pkgs": pkgs, "locals": locals, "locals_err": localsErr, "docs": fileDocs(q.Dir, q.Files),
 			"distinct": distinct, "reps": q.Reps, "real_reps": q.RealReps, "pid": os.Getpid(),
 		}
 	}
